@@ -89,6 +89,7 @@ RowOk(r) == LET key == T.keys[r]
 
 (* sums under a based embedding are shipped as (hi, lo) limbs: hi = number of values summed *)
 HiOk == IF "reshi" \notin DOMAIN T THEN TRUE
+        ELSE IF Len(T.reshi) # (IF T.tf = 1 THEN N ELSE Len(ExpListed)) THEN FALSE   \* malformed: rejected, not an error
         ELSE IF T.tf = 1
         THEN \A r \in 1..N : IF KeyIsNull(T.keys[r]) THEN TRUE
                               ELSE T.reshi[r] = part[IndexOf(dict, T.keys[r])].c
